@@ -167,11 +167,21 @@ class RealSession:
 						classes[p] = type(nodes.by(p)).__name__
 					except Exception as e:  # noqa: BLE001
 						classes[p] = canon(e)
-				syms = {k: (id(s), type(s).__name__, s.types.fullyname) for k, s in self.db.items(mod.path)}
+				syms = {k: (id(s), type(s).__name__, s.types.fullyname, dump_symbol(s) if mod.path == G_NAME else '') for k, s in self.db.items(mod.path)}
 				snap[mod.path] = {'ep': id(ep), 'classes': classes, 'symbols': syms}
 			except Exception as e:  # noqa: BLE001 - the real code raised while being observed: visible as a difference
 				snap[mod.path] = {'ep': 0, 'classes': {}, 'symbols': {}, 'error': canon(e)}
 		return snap
+
+
+def dump_symbol(raw: Any, depth: int = 0) -> str:
+	"""The resolved attribute tree of a symbol (for the generic module: template resolution of a caller must not write into it)."""
+	try:
+		attrs = raw.attrs
+		name = raw.types.domain_name
+		return name if not attrs or depth > 6 else f"{name}<{', '.join(dump_symbol(a, depth + 1) for a in attrs)}>"
+	except Exception as e:  # noqa: BLE001
+		return canon(e)
 
 
 def result_str(kind: str, payload: Any) -> str:
@@ -186,6 +196,35 @@ def result_str(kind: str, payload: Any) -> str:
 # generated module pools
 
 
+G_NAME = 'app.g'
+# a generic function whose return type nests the type variable three levels deep; every using module calls it with another
+# actual type and lets the inferred type reach the output (`a = cube(1.5, 2)`)
+G_SOURCE = ('def cube[T](v: T, n: int) -> list[list[list[T]]]:\n\treturn [[[v] * n] * n] * n\n\n'
+	'def index[T](xs: list[T]) -> dict[str, list[tuple[int, T]]]:\n\treturn {"all": [(i, x) for i, x in enumerate(xs)]}')
+G_LITERALS = ['1.5', '"s"', 'True', '1']
+
+
+def stub_g() -> dict[str, Any]:
+	"""The generic module as the model sees it: `cube` (with its parameter `cube.v`) as named keys, the rest as a number."""
+	return {'name': G_NAME, 'ok': True, 'imports': [], 'classes': [{'name': 'cube', 'methods': [{'name': 'v', 'call': None, 'bad': False, 'lam': False}]}],
+		'vars': [], 'stub': 'g'}
+
+
+_G_KEYS: int | None = None
+
+
+def g_extra(ctx: Ctx) -> int:
+	"""Number of symbol keys of the generic module beyond the four the descriptor names (measured on the real code)."""
+	global _G_KEYS
+	if _G_KEYS is None:
+		proj = ctx.tmpdir('c04-g-')
+		write_pool(proj, [stub_g()])
+		ses = RealSession(proj, ctx.tmpdir('c04-cache-'))
+		ses.modules.load(G_NAME)
+		_G_KEYS = len(list(ses.db.items(G_NAME)))
+	return _G_KEYS - 4
+
+
 def cls_prefix(name: str) -> str:
 	return 'M' if name == MAIN else name.split('.')[-1].capitalize()
 
@@ -194,7 +233,16 @@ def gen_module(rng: random.Random, name: str, earlier: list[dict[str, Any]], p_b
 	mod: dict[str, Any] = {'name': name, 'ok': True, 'imports': [], 'classes': [], 'vars': []}
 	# imports: classes of earlier modules (acyclic), sometimes a missing name, a missing file or a back edge
 	callable_imports: list[tuple[str, str]] = []
-	for dep in rng.sample(earlier, min(len(earlier), rng.choice([0, 1, 1, 2, 2]))):
+	has_g = any(e.get('stub') == 'g' for e in earlier)
+	plain = [e for e in earlier if not e.get('stub')]
+	chosen = rng.sample(plain, min(len(plain), rng.choice([0, 1, 1, 2, 2])))
+	if plain and rng.random() < 0.5 and plain[-1] not in chosen:
+		# import chains of depth >= 3: prefer the module generated just before
+		chosen = [plain[-1], *chosen[:1]]
+	uses_g = has_g and rng.random() < 0.7
+	if uses_g:
+		mod['imports'].append((G_NAME, 'cube'))
+	for dep in chosen:
 		names = [c['name'] for c in dep['classes']]
 		if names and rng.random() < 0.9:
 			c = rng.choice(dep['classes'])
@@ -216,7 +264,11 @@ def gen_module(rng: random.Random, name: str, earlier: list[dict[str, Any]], p_b
 		for mname in ('g', 'h'):
 			if rng.random() < (0.8 if mname == 'g' else 0.4):
 				meth: dict[str, Any] = {'name': mname, 'call': None, 'bad': False, 'lam': False}
-				if callable_imports and rng.random() < 0.6:
+				if uses_g and rng.random() < 0.6:
+					# modelled like a call: the renderer needs `app.g#cube.v`, the local variable is one more key
+					meth['call'] = (G_NAME, 'cube', 'v')
+					meth['gen'] = G_LITERALS[sum(map(ord, name)) % len(G_LITERALS)]
+				elif callable_imports and rng.random() < 0.6:
 					dep, b = rng.choice(callable_imports)
 					meth['call'] = (dep, b, 'g')
 				elif rng.random() < p_bad * 0.3:
@@ -237,6 +289,8 @@ def gen_pool(rng: random.Random, p_bad: float) -> list[dict[str, Any]]:
 	names = ['app.a', 'app.ab', *rng.sample(NAME_POOL[2:], n - 2)]
 	rng.shuffle(names)
 	pool: list[dict[str, Any]] = []
+	if rng.random() < 0.5:
+		pool.append(stub_g())
 	for name in names:
 		pool.append(gen_module(rng, name, list(pool), p_bad, names))
 	return pool
@@ -247,6 +301,8 @@ def gen_main(rng: random.Random, pool: list[dict[str, Any]], p_bad: float) -> di
 
 
 def render_source(mod: dict[str, Any]) -> str:
+	if mod.get('stub') == 'g':
+		return G_SOURCE
 	lines: list[str] = []
 	for dep, n in mod['imports']:
 		lines.append(f'from {dep} import {n}')
@@ -257,7 +313,10 @@ def render_source(mod: dict[str, Any]) -> str:
 		lines.append(f"class {c['name']}:")
 		for m in c['methods']:
 			lines.append(f"\tdef {m['name']}(self, x: int) -> int:")
-			if m['call']:
+			if m.get('gen'):
+				lines.append(f"\t\ta = cube({m['gen']}, 2)")
+				lines.append('\t\treturn x')
+			elif m['call']:
 				lines.append(f"\t\tb = {m['call'][1]}()")
 				lines.append(f"\t\treturn b.{m['call'][2]}(x)")
 			elif m['bad']:
@@ -346,7 +405,7 @@ def world_lines(ctx: Ctx, pool: list[dict[str, Any]]) -> list[str]:
 		lines.append('\t'.join(['mod', m['name'], '1', imps, ';'.join(m['named']) or '-', '-', str(m['keys'] - len(m['named'])), ','.join(m['always']) or '-']))
 	lines.append('\t'.join(['std', ','.join(pre['std_method']), ','.join(pre['std_var'])]))
 	for mod in pool:
-		lines.append('\t'.join(['mod', mod['name'], *desc_tokens(mod), '0']))
+		lines.append('\t'.join(['mod', mod['name'], *desc_tokens(mod), str(g_extra(ctx)) if mod.get('stub') == 'g' else '0']))
 	lines.append('libs\t' + ','.join(pre['libs']))
 	lines.append(f'main\t{MAIN}')
 	lines.append('init')
@@ -392,6 +451,16 @@ def gen_ops(rng: random.Random, pool: list[dict[str, Any]], n: int, p_bad: float
 	ops: list[list[Any]] = []
 	while len(ops) < n:
 		r = rng.random()
+		if rng.random() < 0.08:
+			# c -> b -> a: the root of an import chain is unloaded, then an INDIRECT importer that uses a member it got through
+			# the intermediate module is transpiled (before anything reloads the intermediate module)
+			chains = [(c['name'], b['name'], a) for c in pool for b in pool for a in names
+				if any(m.get('call') and m['call'][0] == b['name'] for k in c['classes'] for m in k['methods'])
+				and a != c['name'] and a in [d for d, _ in b['imports']]]
+			if chains:
+				c, b, a = rng.choice(chains)
+				ops += [['transpile', c], ['unload', a], ['transpile', c]]
+				continue
 		if rng.random() < 0.08:
 			# a dependant is transpiled, one of its imports unloaded, the dependant transpiled again
 			users = [m for m in pool if any(d in names for d, _ in m['imports'])]
@@ -608,8 +677,11 @@ def corpus_cases() -> list[dict[str, Any]]:
 def norm_case(rec: dict[str, Any]) -> dict[str, Any]:
 	"""JSON round trip turns tuples into lists; normalise to the generator's shapes."""
 	def norm_mod(m: dict[str, Any]) -> dict[str, Any]:
+		if m.get('stub') == 'g':
+			return stub_g()
 		return {'name': m['name'], 'ok': bool(m['ok']), 'imports': [tuple(x) for x in m['imports']],
-			'classes': [{'name': c['name'], 'methods': [{'name': x['name'], 'call': tuple(x['call']) if x.get('call') else None, 'bad': bool(x.get('bad')), 'lam': bool(x.get('lam'))} for x in c['methods']]} for c in m['classes']],
+			'classes': [{'name': c['name'], 'methods': [{'name': x['name'], 'call': tuple(x['call']) if x.get('call') else None, 'bad': bool(x.get('bad')), 'lam': bool(x.get('lam')),
+				**({'gen': x['gen']} if x.get('gen') else {})} for x in c['methods']]} for c in m['classes']],
 			'vars': [tuple(x) for x in m['vars']]}
 	pool = [norm_mod(m) for m in rec['pool']]
 	ops = [[o[0], norm_mod(o[1])] if o[0] == 'resubmit' else [o[0], o[1]] for o in rec['ops']]
@@ -866,16 +938,17 @@ def run_checked(ctx: Ctx, before: str | None) -> int:
 	corpus = [norm_case(c) for c in corpus_cases()]
 	with ctx.timed('generate'):
 		valid = gen_cases(ctx, 'session', ctx.scale(10, 60), ctx.scale(12, 40), 0.15)
-		faulty = gen_cases(ctx, 'session-faulty', ctx.scale(6, 40), ctx.scale(12, 40), 1.0)
+		faulty = gen_cases(ctx, 'session-faulty', ctx.scale(12, 80), ctx.scale(12, 40), 1.0)
+		n_faulty = ctx.scale(6, 40)
 	with ctx.timed('correspondence'):
 		# pools with an import cycle stay in the real-code search (session == fresh must hold there too), not in the tie
 		streams = [stream_session(ctx, 'session', [c for c in [*corpus, *valid] if not has_cycle(c['pool'])]),
-			stream_session(ctx, 'session-faulty', [c for c in faulty if not has_cycle(c['pool'])])]
+			stream_session(ctx, 'session-faulty', [c for c in faulty if not has_cycle(c['pool'])][:n_faulty])]
 	with ctx.timed('search'):
 		fresh_cases = [*corpus, *valid[:ctx.scale(4, 20)], *faulty[:ctx.scale(3, 12)]]
 		searches = [
 			search_fresh(ctx, fresh_cases, ctx.scale(2, len(corpus) + 4)),
-			search_frame(ctx, [*corpus, *valid, *faulty]),
+			search_frame(ctx, [c for c in [*corpus, *valid, *faulty] if c['id'] in _RUNS]),
 			search_interactive(ctx),
 			search_runner(ctx),
 		]
